@@ -514,6 +514,42 @@ def cache_key_form(U):
     return dict(form=form, source=source, same=same, miss=miss)
 
 
+def add_form():
+    """does PartialDispatcher.add clear `_cache` (itself, or by delegating to Dispatcher.add which does)?
+    AST of funsor/registry.py and of the installed multipledispatch, cross-checked with the live sources"""
+    import ast
+    import inspect
+    import textwrap
+    from multipledispatch.dispatcher import Dispatcher
+
+    def top_level_clears(fn):
+        for st in fn.body:
+            if isinstance(st, ast.Expr) and ast.unparse(st.value) == "self._cache.clear()":
+                return True
+        return False
+
+    def nodoc(f):
+        body = f.body[1:] if (f.body and isinstance(f.body[0], ast.Expr) and isinstance(f.body[0].value, ast.Constant)) else f.body
+        return [ast.dump(b) for b in body]
+    tree = ast.parse((REPO / "funsor" / "registry.py").read_text())
+    fn = None
+    for node in ast.walk(tree):
+        if isinstance(node, ast.ClassDef) and node.name == "PartialDispatcher":
+            for b in node.body:
+                if isinstance(b, ast.FunctionDef) and b.name == "add":
+                    fn = b
+    if fn is None or PartialDispatcher.__mro__[1] is not Dispatcher:
+        return dict(delegates=False, inherited=False, itself=False, tail="<PartialDispatcher.add not found>")
+    live = ast.parse(textwrap.dedent(inspect.getsource(PartialDispatcher.add))).body[0]
+    live_same = nodoc(live) == nodoc(fn)
+    last = fn.body[-1]
+    delegates = (live_same and isinstance(last, ast.Expr) and isinstance(last.value, ast.Call)
+                 and ast.unparse(last.value.func) == "super().add")
+    base = ast.parse(textwrap.dedent(inspect.getsource(Dispatcher.add))).body[0]
+    return dict(delegates=bool(delegates), inherited=top_level_clears(base), itself=live_same and top_level_clears(fn),
+                tail=ast.unparse(last))
+
+
 _STATE = {}
 
 
@@ -564,6 +600,17 @@ def extract(ctx):
     k.append(f"def cacheLookupStoreSameKey : Bool := {'true' if kf_['same'] else 'false'}")
     k.append("/-- a miss is resolved by `self.dispatch(*types)` with `types = tuple(map(typing_wrap, map(deep_type, args)))` -/")
     k.append(f"def cacheMissUsesDeepTypes : Bool := {'true' if kf_['miss'] else 'false'}\n")
+    af = add_form()
+    b_ = lambda x: "true" if x else "false"   # noqa: E731
+    k.append("/-- `PartialDispatcher.add` ends by delegating to `super().add(signature, func)` (last statement: `"
+             + af["tail"].replace("-/", "- /")[:200] + "`) -/")
+    k.append(f"def addDelegatesToDispatcherAdd : Bool := {b_(af['delegates'])}")
+    k.append("/-- multipledispatch's `Dispatcher.add` executes `self._cache.clear()` unconditionally -/")
+    k.append(f"def dispatcherAddClearsCache : Bool := {b_(af['inherited'])}")
+    k.append("/-- `PartialDispatcher.add` itself executes `self._cache.clear()` unconditionally -/")
+    k.append(f"def addClearsCacheItself : Bool := {b_(af['itself'])}")
+    k.append("def addClearsCache : Bool := (addDelegatesToDispatcherAdd && dispatcherAddClearsCache) || addClearsCacheItself\n")
+    ctx.extra["add_form"] = af
     k.append("end FV.Gen.C16\n")
     ch3 = write_if_changed(GEN / "C16Key.lean", "\n".join(k))
     ctx.extra["cache_key"] = kf_
@@ -2575,6 +2622,213 @@ def part_deep_type_values(ctx, U, use_driver=True):
                     ctx.count("twins:no-least-pattern")
 
 
+# ----------------------------------------------------------------------------------------
+# histories of register / dispatch on ONE dispatcher, through every front-end
+# ----------------------------------------------------------------------------------------
+
+FRONT_ENDS = {
+    "PartialDispatcher": """
+from funsor.registry import PartialDispatcher
+_F = PartialDispatcher(lambda *a: "default")
+def reg(name, *p): _F.register(*p)(lambda *a: name)
+def call(*a): return _F(*a)
+""",
+    "KeyedRegistry": """
+from funsor.registry import KeyedRegistry
+from funsor.terms import Binary
+_R = KeyedRegistry(default=lambda *a: "default")
+def reg(name, *p): _R.register(Binary, *p)(lambda *a: name)
+def call(*a): return _R.dispatch(Binary, *a)(*a)
+""",
+    "DispatchedInterpretation": """
+from funsor.interpretations import DispatchedInterpretation
+from funsor.terms import Binary
+_I = DispatchedInterpretation("c16_history")
+def reg(name, *p): _I.register(Binary, *p)(lambda *a: name)
+def call(*a): return _I.dispatch(Binary, *a)(*a) or "default"
+""",
+    "StatefulInterpretation": """
+from funsor.interpretations import StatefulInterpretation
+from funsor.terms import Binary
+class _S(StatefulInterpretation):
+    pass
+def reg(name, *p): _S.register(Binary, *p)(lambda *a: name)
+def call(*a): return _S.dispatch(Binary, *a)(*a) or "default"
+""",
+    "UnaryOp.make": """
+import funsor.ops as ops
+def c16_history_op(x):
+    return "default"
+_OP = ops.UnaryOp.make(c16_history_op, name="c16_history_op_{uid}")
+def reg(name, *p): _OP.register(*p)(lambda *a: name)
+def call(*a): return _OP(*a)
+""",
+}
+
+PY_HISTORY = """
+# replay for C16: registrations interleaved with dispatches, front-end {fe}
+import typing, numpy
+from typing import Any, Tuple, FrozenSet, Union
+import funsor; funsor.set_backend("numpy")
+import funsor.ops, funsor.ops.op, funsor.terms, funsor.tensor, funsor.domains
+from funsor.registry import PartialDispatcher
+from funsor.typing import deep_type, typing_wrap
+{setup}
+STEPS = [{steps}]
+def history_free(patterns, args):      # fresh dispatcher over the patterns registered so far, no cache
+    d = PartialDispatcher(lambda *a: "default")
+    for name, p in patterns:
+        d.register(*p)(lambda *a, name=name: name)
+    f = d.dispatch(*map(typing_wrap, map(deep_type, args)))
+    return getattr(f, "default", f)(*args)
+FAILS = False
+so_far = []
+for st in STEPS:
+    if st[0] == "reg":
+        reg(st[1], *st[2]); so_far.append((st[1], st[2]))
+    else:
+        got, want = call(*st[1]), history_free(so_far, st[1])
+        if got != want:
+            print("after registering", [n for n, _ in so_far], "args", st[1], "->", got, "but the registered patterns give", want)
+            FAILS = True
+"""
+
+
+def history_families(U):
+    import funsor.ops as ops
+    from funsor.terms import Funsor, Number
+    from funsor.tensor import Tensor
+    T = typing
+    c = lambda x: ("c", U.ids[x])                   # noqa: E731
+    g = lambda x, *a: ("g", U.ids[x], tuple(a))     # noqa: E731
+    nd, s_ = c(np.ndarray), c(str)
+    import funsor.domains as Dm
+    ten = g(Tensor, nd, ("t", (("t", (s_, c(Dm.BintType))),)), s_)
+    num = g(Number, c(int), s_)
+    numf = g(Number, c(float), s_)
+    scal = dict(
+        arity=1,
+        patterns=[("int", (int,)), ("bool", (bool,)), ("float", (float,)), ("str", (str,)), ("tuple", (tuple,)),
+                  ("ints", (T.Tuple[int, ...],)), ("pair", (T.Tuple[int, int],)), ("floats", (T.Tuple[float, ...],)),
+                  ("bools", (T.Tuple[bool, ...],)), ("strset", (T.FrozenSet[str],)), ("frozenset", (frozenset,)),
+                  ("intfloat", (T.Tuple[int, float],))],
+        samples=[((3,), "3"), ((True,), "True"), ((2.5,), "2.5"), (("s",), "'s'"), (((1, 2),), "(1, 2)"),
+                 (((1, 2, 3),), "(1, 2, 3)"), (((1, 2.5),), "(1, 2.5)"), (((True, False),), "(True, False)"),
+                 ((frozenset(["a"]),), "frozenset(['a'])"), ((frozenset([1]),), "frozenset([1])"), (((),), "()"),
+                 (((2.5, 1.5),), "(2.5, 1.5)")])
+    two_trees = [(c(ops.AddOp), ten), (c(ops.MulOp), ten), (c(ops.AddOp), num), (c(ops.AddOp), numf),
+                 (c(ops.ExpOp), ten), (c(ops.AddOp), g(Funsor))]
+    two = dict(
+        arity=2,
+        patterns=[("generic", (ops.op.Op, Funsor)), ("op-tensor", (ops.op.Op, Tensor)), ("add-tensor", (ops.AddOp, Tensor)),
+                  ("op-number", (ops.op.Op, Number)), ("add-funsor", (ops.AddOp, Funsor)), ("add-number", (ops.AddOp, Number)),
+                  ("assoc-int-number", (ops.AssociativeOp, Number[int, str])), ("binary-tensor", (ops.op.BinaryOp, Tensor))],
+        samples=[(tuple(fake_value(U, t)[0] for t in tr), "(" + "".join(pysrc_value(U, t) + ", " for t in tr) + ")") for tr in two_trees])
+    return dict(scalars=scal, terms=two)
+
+
+def part_register_histories(ctx, U, use_driver=True):
+    """random interleavings of register(pattern) / dispatch(args) on one throw-away dispatcher per history,
+    through each front-end; after EVERY step the chosen rule must be the history-free dispatch (fresh
+    dispatcher, real) and the model's dispatch over the patterns registered SO FAR, for the true type key"""
+    rng = ctx.rng
+    fams = history_families(U)
+    n_hist = 3 if ctx.tier == "quick" else 15
+    uid = [rng.randrange(10 ** 9)]
+    model_reqs, model_meta = [], []
+    for fe, setup in FRONT_ENDS.items():
+        for famname, fam in fams.items():
+            if fe == "UnaryOp.make" and fam["arity"] != 1:
+                continue
+            for h in range(n_hist):
+                uid[0] += 1
+                ns = {}
+                src = setup.replace("{uid}", str(uid[0]))
+                try:
+                    exec(src, ns)
+                except Exception as e:   # noqa
+                    ctx.infra_errors.append(f"front-end {fe} could not be set up: {type(e).__name__}: {e}")
+                    return
+                pats = list(fam["patterns"])
+                rng.shuffle(pats)
+                pats = pats[: rng.randint(3, min(7, len(pats)))]
+                samples = list(fam["samples"])
+                seen, so_far, steps = [], [], []
+                ref = [PartialDispatcher(lambda *a: "default")]
+
+                def check(args, asrc, label):
+                    with warnings.catch_warnings():
+                        warnings.simplefilter("ignore")
+                        got = ns["call"](*args)
+                        types = tuple(map(typing_wrap, map(deep_type, args)))
+                        f = ref[0].dispatch(*types)
+                    want = getattr(f, "default", f)(*args)
+                    steps.append(f"('call', {asrc})")
+                    ctx.count("history:dispatches")
+                    ctx.count(f"history:{label}")
+                    if got != want:
+                        ctx.fail("input", "C16.dispatch-stale-after-registration",
+                                 witness=dict(front_end=fe, family=famname, registered_so_far=[n for n, _ in so_far], args=asrc,
+                                              seen_before_last_registration=(label == "seen-before"), got_rule=got, rule_for_registered_patterns=want,
+                                              steps=steps[-12:]),
+                                 expected=want, got=got,
+                                 python=PY_HISTORY.format(fe=fe, setup=src, steps=", ".join(steps)))
+                        return False
+                    if use_driver and rng.random() < 0.25:
+                        sigs = list(ref[0].funcs)
+                        try:
+                            enc = [U.enc_sig(x) for x in sigs]
+                            tt = [U.enc_alt(t) for t in types]
+                        except Unsupported:
+                            return True
+                        with warnings.catch_warnings():
+                            warnings.simplefilter("ignore")
+                            order = [sigs.index(x) for x in ref[0].ordering]
+                        model_reqs.append(f"C16 dispatchx ({' '.join(sigsx(e) for e in enc)}) ({' '.join(map(str, order))}) ({' '.join(tsx(t) for t in tt)})")
+                        model_meta.append(([getattr(ref[0].funcs[x], "default", ref[0].funcs[x])(*args) for x in sigs], want, fe, asrc))
+                    return True
+                todo = list(pats)
+                nsteps = 0
+                while todo and nsteps < 40:
+                    nsteps += 1
+                    if rng.random() < 0.4 or not seen:
+                        args, asrc = rng.choice(samples)      # a dispatch before the next registration
+                        if (args, asrc) not in seen:
+                            seen.append((args, asrc))
+                        if not check(args, asrc, "between-registrations"):
+                            return
+                        continue
+                    name, p = todo.pop()
+                    with warnings.catch_warnings():
+                        warnings.simplefilter("ignore")
+                        ns["reg"](name, *p)
+                        ref[0].register(*p)((lambda name: (lambda *a: name))(name))
+                    so_far.append((name, p))
+                    psrc = "(" + "".join((pyrepr(U, U.enc(x)) if not isinstance(x, type) or isinstance(x, GenericTypeMeta) else (cname(x).replace("builtins.", ""))) + ", " for x in p) + ")"
+                    steps.append(f"('reg', {name!r}, {psrc})")
+                    ctx.count("history:registrations")
+                    # gate right after the registration: every argument seen before, and a fresh one
+                    for args, asrc in list(seen):
+                        if not check(args, asrc, "seen-before"):
+                            return
+                    fresh_ = [x for x in samples if x not in seen]
+                    if fresh_:
+                        args, asrc = rng.choice(fresh_)
+                        seen.append((args, asrc))
+                        if not check(args, asrc, "fresh-after"):
+                            return
+                ctx.case(sample=dict(front_end=fe, family=famname, steps=steps[:8]) if h == 0 else None,
+                         nontrivial_key=("history", fe, famname, tuple(steps)))
+    if use_driver and model_reqs:
+        ans = ctx.driver.ask(model_reqs)
+        for a, (rules, want, fe, asrc) in zip(ans, model_meta):
+            p = parse_sx("(" + a[3:] + ")") if a.startswith("ok ") else None
+            ctx.count("history:dispatch-vs-model")
+            if p is None or isinstance(p[0], str) or rules[int(p[0][1])] != want:
+                ctx.fail("correspondence", "C16.dispatch-vs-model", witness=dict(front_end=fe, args=asrc, model=a, real_rule=want, rules=rules))
+                return
+
+
 def part_known_ambiguity(ctx, U, D, kf_cases):
     """dedicated stream for KF-precondition-ambiguous-patterns: two registered patterns overlap, neither
     is more specific, nothing more specific covers the overlap"""
@@ -2689,6 +2943,7 @@ def correspond(ctx):
     part_supercedes(ctx, U, D)
     part_container_registries(ctx, U)
     part_deep_type_values(ctx, U)
+    part_register_histories(ctx, U)
     kf_cases = []
     r = part_dispatch(ctx, U, D, observed, kf_cases=kf_cases)
     part_known_ambiguity(ctx, U, D, kf_cases)
@@ -2734,6 +2989,9 @@ def search(ctx, broken):
         if found():
             return
         part_deep_type_values(ctx, U, use_driver=False)
+        if found():
+            return
+        part_register_histories(ctx, U, use_driver=False)
         if found():
             return
         r = part_dispatch(ctx, U, D, observed, use_driver=False)
